@@ -31,7 +31,7 @@ def run(ctx):
     ctx.run_rule("MO", r_state.rule_merge_order, cfgs)
     ctx.run_rule("S5", r_hazmat.rule_S5, cfgs)
     ctx.run_rule("Ff", r_flags.rule_F_fields, cfgs)
-    std = [c for c in cfgs if c not in ("portable1", "asm-nostd")]
+    std = [c for c in cfgs if c not in ("portable1", "asm-nostd", "neon1")]
     ctx.run_rule("LZ", r_state.rule_LZ, std)
     ctx.run_rule("I2", r_io.rule_I2, std)
     ctx.run_rule("I1", r_io.rule_I1, std)
